@@ -1,5 +1,6 @@
 # Licensed under a 3-clause BSD style license - see LICENSE.rst
 
+import copy
 import re
 import string
 import warnings
@@ -398,8 +399,10 @@ def _define_raw_metadata(global_meta, composite_meta, include_meta,
     meta : tuple of dict
         The (valid) raw metadata extracted from the region file.
     """
-    all_meta = global_meta.copy()
-    all_meta.update(composite_meta)
+    # list-valued entries (e.g., tag) must not be shared between the
+    # regions that inherit them from a global or composite line
+    all_meta = copy.deepcopy(global_meta)
+    all_meta.update(copy.deepcopy(composite_meta))
     all_meta.update(include_meta)
     # region_meta must come after include_meta because include=1/0 in
     # metadata overrides the leading "-/+" include symbol
@@ -711,9 +714,11 @@ def _make_region(region_data):
 
         region = ds9_shape_to_region[region_type][shape](*shape_params)
 
-        region.meta = RegionMeta(meta)
-        region.visual = RegionVisual(visual)
-        region._raw_meta = region_data.raw_meta
+        # each region made from the line (e.g., the annuli of a
+        # multi-radius shape) gets metadata objects of its own
+        region.meta = RegionMeta(copy.deepcopy(meta))
+        region.visual = RegionVisual(copy.deepcopy(visual))
+        region._raw_meta = copy.deepcopy(region_data.raw_meta)
 
         regions.append(region)
 
